@@ -101,5 +101,12 @@ pub fn run(ws: &Ws, seed: u64) -> Result<i32, String> {
     }
     println!("selftest: determinism: {audited} scenario pairs, {mismatches} mismatch(es)");
     let _ = hostcase::GEN_PATHS;
-    Ok(if bad + mismatches > 0 { 2 } else { 0 })
+
+    // ---- 3. stub conformance: simulated process world vs. real processes
+    let conf = crate::conformance::run(ws, &exec, 200, seed, 16)?;
+    println!("selftest: stub conformance: {} scenario(s) also executed against the real binary with real generator processes, {} agree, {} disagree; behaviours {:?}", conf.scenarios, conf.agree, conf.disagreements.len(), conf.kinds);
+    for d in conf.disagreements.iter().take(10) {
+        println!("selftest:   {d}");
+    }
+    Ok(if bad + mismatches + conf.disagreements.len() > 0 { 2 } else { 0 })
 }
